@@ -798,6 +798,73 @@ mod parsers {
             let x = inp.clone();
             if panic::catch_unwind(move || { let _ = Response::parse(&x); }).is_err() { h.hit("parsers", "c20_panic_response_parse", "Response::parse", &i.to_string(), &format!("panic on {:?}", String::from_utf8_lossy(inp))); }
         }
+        // ---- every other parsing entry point: mutated valid documents, panic = hit, hang (JSON) = hit ----
+        fn mutations(doc: &str) -> Vec<Vec<u8>> {
+            let b = doc.as_bytes();
+            let mut v: Vec<Vec<u8>> = vec![b.to_vec()];
+            for i in 0..b.len() { v.push(b[..i].to_vec()); }
+            for i in 0..b.len() { for r in [b'"', b'\\', 0xc3, 0xff, b'\n', b'-', b'{', b'}', b'[', b',', b':', b'='] { let mut m = b.to_vec(); m[i] = r; v.push(m); } }
+            for i in (0..b.len()).step_by(3) { let mut m = b.to_vec(); m.insert(i, 0xe2); m.insert(i + 1, 0x82); m.insert(i + 2, 0xac); v.push(m); }
+            v
+        }
+        let strs = |doc: &str| -> Vec<String> { mutations(doc).into_iter().filter_map(|m| String::from_utf8(m).ok()).collect() };
+        for t in strs("QUJDREU=").into_iter().chain(strs("QQ==")).chain(["QUJ\u{e9}".to_string(), "\u{e9}UJD".to_string(), "QU\u{20ac}".to_string(), "====".to_string()]) {
+            let tt = t.clone();
+            if panic::catch_unwind(move || { let _ = crate::core::base64::Base64::decode(tt); }).is_err() { h.hit("parsers", "c20_panic_base64_decode", "Base64::decode", &t, "panic"); }
+        }
+        for t in strs("Content-Type: text/html; charset=utf-8\r\n") {
+            let tt = t.clone();
+            if panic::catch_unwind(move || { let _ = Header::parse_header(&tt); }).is_err() { h.hit("parsers", "c20_panic_header_parse", "Header::parse_header", &t, "panic"); }
+        }
+        for t in strs("form-data; name=\"field\"; filename=\"a.txt\"").into_iter().chain(strs("attachment; filename=\"x\"")).chain(strs("inline")) {
+            let tt = t.clone();
+            if panic::catch_unwind(move || { let _ = crate::header::content_disposition::ContentDisposition::parse(&tt); }).is_err() { h.hit("parsers", "c20_panic_content_disposition", "ContentDisposition::parse", &t, "panic"); }
+        }
+        for t in strs("multipart/form-data; boundary=----abc") {
+            let tt = t.clone();
+            if panic::catch_unwind(move || { let _ = crate::body::multipart_form_data::FormMultipartData::extract_boundary(&tt); }).is_err() { h.hit("parsers", "c20_panic_extract_boundary", "FormMultipartData::extract_boundary", &t, "panic"); }
+        }
+        let mp = "--xyz\r\nContent-Disposition: form-data; name=\"a\"\r\n\r\nvalue\r\n--xyz\r\nContent-Disposition: form-data; name=\"b\"\r\n\r\n\r\n--xyz--\r\n";
+        let mut mps = mutations(mp);
+        mps.push(b"--xyz\nContent-Disposition: form-data; name=\"a\"\n\n\n--xyz--\n".to_vec());
+        mps.push(b"--xyz\nContent-Disposition: form-data; name=\"a\"\n\nv\n--xyz--\n".to_vec());
+        for (k, m) in mps.iter().enumerate() {
+            for bd in ["xyz", "--xyz", "----", "", "x-y-z", "-"] {
+                let mm = m.clone();
+                if panic::catch_unwind(move || { let _ = crate::body::multipart_form_data::FormMultipartData::parse(&mm, bd.to_string()); }).is_err() {
+                    h.hit("parsers", "c20_panic_multipart_parse", "FormMultipartData::parse", &format!("{}/{}", k, bd), &format!("panic; boundary {:?} body {:?}", bd, String::from_utf8_lossy(m)));
+                }
+            }
+        }
+        for t in strs("/users/[[user_id]]/posts/[[post_id]]").into_iter().chain(strs("/a/[[b]]")) {
+            let tt = t.clone();
+            if panic::catch_unwind(move || { let _ = crate::url::path::UrlPath::extract_parts_from_pattern(&tt); let _ = crate::url::path::UrlPath::extract("/users/1/posts/2", &tt); let _ = crate::url::path::UrlPath::is_matching(&tt, "/a/[[b]]"); }).is_err() {
+                h.hit("parsers", "c20_panic_url_path", "UrlPath", &t, "panic");
+            }
+        }
+        for t in strs("[1, 2.5, \"a\", null, true, [1], {\"k\": 1}]").into_iter().chain(strs("[\"x\",\"y\"]")) {
+            let tt = t.clone();
+            if panic::catch_unwind(move || { let _ = crate::json::array::RawUnprocessedJSONArray::split_into_vector_of_strings(tt); }).is_err() { h.hit("parsers", "c20_panic_json_array", "RawUnprocessedJSONArray::split_into_vector_of_strings", &t, "panic"); }
+        }
+        // JSON objects: run on a helper thread with a time limit (non-termination counts)
+        let mut jsons = strs("{\"name\": \"rws\", \"port\": 7878, \"ok\": true, \"f\": 1.5, \"n\": null, \"o\": {\"a\": 1}, \"l\": [1, 2]}");
+        jsons.truncate(600);
+        for t in jsons {
+            let tt = t.clone();
+            let (tx, rx) = std::sync::mpsc::channel();
+            std::thread::spawn(move || { let r = panic::catch_unwind(move || { let _ = crate::json::object::JSON::parse_as_properties(tt); }); let _ = tx.send(r.is_ok()); });
+            match rx.recv_timeout(std::time::Duration::from_secs(5)) {
+                Ok(true) => {}
+                Ok(false) => h.hit("parsers", "c20_panic_json_object", "JSON::parse_as_properties", &t, "panic"),
+                Err(_) => { h.hit("parsers", "c20_hang_json_object", "JSON::parse_as_properties", &t, "no result within 5 s"); break; }
+            }
+        }
+        for m in mutations("[cors]\nallow_all = true # c\nallow_origins = [\"a\", \"b\"]\n\nport=80\n").into_iter().take(400) {
+            let mm = m.clone();
+            if panic::catch_unwind(move || { let c = std::io::Cursor::new(&mm[..]); let _ = crate::entry_point::config_file::read_config_file(c, "".to_string()); }).is_err() {
+                h.hit("parsers", "c20_panic_config_file", "read_config_file", &String::from_utf8_lossy(&m), "panic");
+            }
+        }
         // C15: both serialisers, read back
         let mut rng = Rng(seed | 1);
         for i in 0..300u64 {
@@ -834,6 +901,23 @@ mod parsers {
     }
 }
 
+mod probe2 {
+    pub fn run() {
+        std::panic::set_hook(Box::new(|i| { eprintln!("PANIC {}", i); }));
+        for t in ["/users/[", "/users/[[", "/a/[[b]]]", "/a/]]", "]]", "[[]]", "/a/[[b]][[c]]", "/[[a"] {
+            let r1 = std::panic::catch_unwind(|| crate::url::path::UrlPath::extract_parts_from_pattern(t).is_ok());
+            let r2 = std::panic::catch_unwind(|| crate::url::path::UrlPath::extract("/users/1/posts/2", t).is_ok());
+            let r3 = std::panic::catch_unwind(|| crate::url::path::UrlPath::is_matching(t, "/a/[[b]]").is_ok());
+            let r4 = std::panic::catch_unwind(|| crate::url::path::UrlPath::is_matching("/a/1", t).is_ok());
+            println!("{:?}: parts {:?} extract {:?} is_matching(as path) {:?} is_matching(as pattern) {:?}", t, r1, r2, r3, r4);
+        }
+        for t in ["\u{20ac}[1]", "[1]\u{20ac}", "[\u{20ac}]", " [1]", "\u{e9}", ""] {
+            let tt = t.to_string();
+            let r = std::panic::catch_unwind(move || crate::json::array::RawUnprocessedJSONArray::split_into_vector_of_strings(tt).is_ok());
+            println!("json array {:?}: {:?}", t, r);
+        }
+    }
+}
 mod probe {
     use crate::request::Request;
     pub fn run() {
@@ -847,6 +931,7 @@ mod probe {
 
 pub fn dispatch(args: &[String]) -> i32 {
     if args.len() > 0 && args[0] == "probe" { probe::run(); return 0; }
+    if args.len() > 0 && args[0] == "probe2" { probe2::run(); return 0; }
     panic::set_hook(Box::new(|_| {}));
     if args.len() < 2 { eprintln!("usage: falsify search <routine> <seed> | replay <routine> <case> <input>"); return 2; }
     let found = match (args[0].as_str(), args[1].as_str()) {
